@@ -426,10 +426,28 @@ func (p *MinQueriesPlanner) extractSelection(ctx *PlanningContext, config *extra
 				// we can get rid of them since the parent was responsible for handling
 				wrapper := ast.SelectionSet{}
 				if len(config.wrapper) > 0 {
-					wrapper = config.wrapper[:1]
-					if _, ok := wrapper[0].(*ast.InlineFragment); ok {
-						wrapper = ast.SelectionSet{}
+					if _, ok := config.wrapper[0].(*ast.InlineFragment); !ok {
+						wrapper = append(wrapper, config.wrapper[0])
 					}
+				}
+				// the conditions (@skip, @include) on the fragments we leave behind, and on the field itself,
+				// still decide whether anything beneath this field is part of the response. A branch that is
+				// kicked off beneath it runs whenever its insertion point exists (another occurrence of the
+				// field can provide it), so it has to carry those conditions along.
+				for _, wrap := range config.wrapper[len(wrapper):] {
+					var directives ast.DirectiveList
+					switch wrap := wrap.(type) {
+					case *ast.InlineFragment:
+						directives = wrap.Directives
+					case *ast.FragmentSpread:
+						directives = wrap.Directives
+					}
+					if len(directives) > 0 {
+						wrapper = append(wrapper, &ast.InlineFragment{Directives: directives})
+					}
+				}
+				if len(selection.Directives) > 0 {
+					wrapper = append(wrapper, &ast.InlineFragment{Directives: selection.Directives})
 				}
 
 				ctx.Gateway.logger.Debug("found a thing with a selection. extracting to ", insertionPoint, ". Parent insertion", config.insertionPoint)
